@@ -139,7 +139,10 @@ func (w *world) exactValue(s *snap, v []*big.Int, withLtv bool) *big.Rat {
 		}
 		x := new(big.Rat).SetFrac(new(big.Int).Mul(v[d], s.price[d]), new(big.Int).Mul(w.cf[d], prec))
 		if withLtv {
-			x.Mul(x, new(big.Rat).SetFrac(decMant(w.cfg.Markets[d].LTV), prec))
+			if w.inForce[d] == nil {
+				continue
+			}
+			x.Mul(x, new(big.Rat).SetFrac(decMant(w.inForce[d].LTV), prec))
 		}
 		tot.Add(tot, x)
 	}
@@ -342,7 +345,7 @@ func (w *world) monitor(op Op, cls Class, err error, p *pre, before, after *snap
 		}
 		// materially safe positions (exact rational valuation, 1e-9 USD slack) are never liquidated
 		bv, lim := w.exactValue(before, p.bor, false), w.exactValue(before, p.dep, true)
-		if new(big.Rat).Add(bv, big.NewRat(1, 1_000_000_000)).Cmp(lim) < 0 {
+		if !w.dirty && new(big.Rat).Add(bv, big.NewRat(1, 1_000_000_000)).Cmp(lim) < 0 {
 			return "liquidation-only-of-unsafe", "liquidated-materially-safe-position", fmt.Sprintf("borrowed %s < limit %s", bv.FloatString(20), lim.FloatString(20))
 		}
 		if after.dep[op.B] != nil || after.bor[op.B] != nil {
@@ -370,8 +373,10 @@ func (w *world) monitor(op Op, cls Class, err error, p *pre, before, after *snap
 			if gains.Cmp(out) != 0 {
 				return "liquidation-scope", "liquidation-not-conserving", fmt.Sprintf("denom %s: out %s, received %s", denoms[d], out, gains)
 			}
-			if op.A != op.B && d < nMkt {
-				share := new(big.Int).Mul(decMant(w.cfg.Markets[d].Keeper), p.dep[d])
+			// the CONFIGURED share: read from the params in force (those the last successful begin
+			// block saw), not from the money-market store the handler uses
+			if op.A != op.B && d < nMkt && !w.dirty && w.inForce[d] != nil {
+				share := new(big.Int).Mul(decMant(w.inForce[d].Keeper), p.dep[d])
 				share.Quo(share, prec)
 				if g := new(big.Int).Sub(after.bal[op.A][d], before.bal[op.A][d]); g.Cmp(share) > 0 {
 					return "liquidation-scope", "keeper-reward-exceeds-share", fmt.Sprintf("denom %s: keeper got %s, share %s", denoms[d], g, share)
@@ -394,7 +399,7 @@ func (w *world) monitor(op Op, cls Class, err error, p *pre, before, after *snap
 		dv, bv := amtAfter(after.dep[u]), amtAfter(after.bor[u])
 		if after.bor[u] != nil {
 			lim, val := w.exactValue(after, dv, true), w.exactValue(after, bv, false)
-			if val.Cmp(new(big.Rat).Add(lim, big.NewRat(1, 1_000_000_000))) > 0 {
+			if !w.dirty && val.Cmp(new(big.Rat).Add(lim, big.NewRat(1, 1_000_000_000))) > 0 {
 				return "ltv-gate", "ltv-materially-exceeded-after-" + op.Kind, fmt.Sprintf("borrowed %s > limit %s", val.FloatString(20), lim.FloatString(20))
 			}
 			if after.dep[u] != nil {
@@ -440,7 +445,10 @@ func (w *world) splitValuationGap(s *snap, dep, old, add []*big.Int) (gap bool) 
 	limit, split, joint := sdk.ZeroDec(), sdk.ZeroDec(), sdk.ZeroDec()
 	for d := 0; d < nMkt; d++ {
 		if dep[d].Sign() != 0 {
-			limit = limit.Add(w.usdDec(s, d, dep[d]).Mul(dec(w.cfg.Markets[d].LTV)))
+			if w.inForce[d] == nil {
+				return false
+			}
+			limit = limit.Add(w.usdDec(s, d, dep[d]).Mul(dec(w.inForce[d].LTV)))
 		}
 		if old[d].Sign() != 0 {
 			split = split.Add(w.usdDec(s, d, old[d]))
@@ -465,6 +473,7 @@ var allSplits = []string{
 	"liq:keeper-is-borrower", "liq:multi-denom-position",
 	"accrue:interest-positive", "accrue:skipped-rounds-to-zero", "accrue:reserves-exceed-cash-plus-borrows", "accrue:cash-plus-borrows-equals-reserves", "accrue:dt-zero",
 	"msg:malformed-refused", "price:none", "borrow:takes-reserve-coins",
+	"params:market-changed", "params:keeper-share-only-changed", "params:market-removed", "params:market-readded-with-positions", "liq:after-keeper-share-change",
 }
 
 func (w *world) countSplits(op Op, cls Class, p *pre, before, after *snap, splits map[string]bool, cnt *Counters) {
@@ -594,5 +603,32 @@ func (w *world) countSplits(op Op, cls Class, p *pre, before, after *snap, split
 		if op.X == "0" {
 			mark("price:none")
 		}
+	}
+	// parameter changes take effect at a begin block: compare the store before and after
+	if op.Kind == "block" && ok {
+		for d := 0; d < nMkt; d++ {
+			b, a := before.mkts[d], after.mkts[d]
+			switch {
+			case b != "None" && a == "None":
+				mark("params:market-removed")
+			case b == "None" && a != "None":
+				if after.tsup[d].Sign() > 0 || after.tbor[d].Sign() > 0 {
+					mark("params:market-readded-with-positions")
+				}
+			case b != a:
+				mark("params:market-changed")
+				if w.prevForce != nil && w.prevForce[d] != nil && w.inForce[d] != nil {
+					x, y := *w.prevForce[d], *w.inForce[d]
+					x.Keeper = y.Keeper
+					if x == y {
+						mark("params:keeper-share-only-changed")
+						w.keeperChanged = true
+					}
+				}
+			}
+		}
+	}
+	if op.Kind == "liquidate" && ok && w.keeperChanged {
+		mark("liq:after-keeper-share-change")
 	}
 }
